@@ -166,6 +166,8 @@ def fixed_cases():
         cases.append((l1, [("render", 30), ("add", [], T("c")), ("render", 30), ("add", [], T("e f")), ("render", 12), ("render", 30)]))
         cases.append((l2, [("render", 6), ("render", 40)]))                      # ValueError first, then wide enough
         cases.append((l2, [("render", 40), ("other", l1, 9), ("render", 40)]))
+        cases.append((l2, [("render", 40), ("other", ["list", kind, 2, [T("p q"), T("r"), T("s")], None, 2, ["[", "] ", 0]], 40), ("render", 40),
+                           ("other", ["window", "W", [l1]], 25), ("render", 20)]))
         cases.append((["window", "Title", [T("head"), l2]], [("render", 50), ("add", [1], T("x y z")), ("render", 22), ("add", [], ["sep", 1]), ("render", 50)]))
         cases.append((["list", "row", 2, [l2, l1], None, 2, DEF], [("render", 60), ("add", [0], T("q")), ("render", 35), ("add", [1], l2), ("render", 60)]))
         cases.append((["center", l2], [("render", 60), ("add", [0], T("q")), ("render", 31), ("render", 60)]))
